@@ -43,9 +43,10 @@ pub fn narrow_$T(x: usize) -> (r: $T)
 { x as $T }
 
 // dialect rule 4: a panic that is not a documented refusal must be unreachable.
-pub fn vpanic() -> (r: bool)
+#[verifier::external_body]
+pub fn vpanic<A>() -> (r: A)
     requires false, // OBLG: panic_reachable
-{ true }
+{ unimplemented!() }
 
 // documented refusal ("StorageT is not big enough ..."): allowed divergence.
 #[verifier::external_body]
